@@ -27,7 +27,7 @@ func init() {
 		{Pkg: oc, Type: "Pusher", Opaque: true},
 		{Pkg: "bytes", Type: "Reader", Opaque: true},
 		{Pkg: "bytes", Func: "NewReader", Oracle: true},
-		{Pkg: oc, Func: "Pusher.Push", Oracle: true, DropParams: []string{"content"}},
+		{Pkg: oc, Func: "Pusher.Push", Oracle: true, AnyReceiver: true, DropParams: []string{"content"}},
 		{Pkg: oras, Func: "PushBytes"},
 
 		// PushSignature, second half: the request uploadSignatureManifest hands to
